@@ -74,6 +74,45 @@ def near_miss(G, X):
     return ('B', fs) if fs else ('B', [[add(p, d) for p in f] for f in X[1]])
 
 
+def collision_twin(G, k):
+    """two DIFFERENT point-defined objects whose coordinates differ only by -1 <-> -2 on one axis, the other coordinates
+    being 0 or 1: CPython hashes -1 and -2 alike (also as floats, and so the products with 0 / 1), so every hash the library
+    builds from the coordinates collides (D12: ConvexPolygon / ConvexPolyhedron `==` compared hashes)"""
+    R = G.R
+    ax = R.randrange(3)
+
+    def pt(c, u, v):
+        p = [F(u), F(v)]
+        p.insert(ax, F(c))
+        return tuple(p)
+    sq = [(0, 0), (0, 1), (1, 1), (1, 0)]
+    if k == 'P' or k == 'V':
+        u, v = R.randint(0, 1), R.randint(0, 1)
+        return (k, pt(-1, u, v)), (k, pt(-2, u, v))
+    if k == 'S':
+        (u, v), (u2, v2) = R.sample(sq, 2)
+        return ('S', pt(-1, u, v), pt(0, u2, v2)), ('S', pt(-2, u, v), pt(0, u2, v2))
+    if k == 'G':
+        corners = sq if R.random() < 0.5 else R.sample(sq, 3)
+        if R.random() < 0.5:        # the same polygon one unit further along the axis
+            return G.shuffled_polygon([pt(-1, u, v) for u, v in corners]), G.shuffled_polygon([pt(-2, u, v) for u, v in corners])
+        # a polygon through the axis: one edge at -1 resp. -2
+        a = [pt(0, 0, 0), pt(0, 1, 0)]
+        q = [tuple(F(-1) if j == ax else c for j, c in enumerate(p)) for p in a]
+        q2 = [tuple(F(-2) if j == ax else c for j, c in enumerate(p)) for p in a]
+        return G.shuffled_polygon(a + q[::-1]), G.shuffled_polygon(a + q2[::-1])
+    if k == 'B':
+        def box(lo):
+            vs = [pt(c, u, v) for c in (lo, 0) for u, v in sq]
+            return E.hull_faces(vs)
+        if R.random() < 0.5:       # unit cube [-1,0] against the brick [-2,0]
+            return G.shuffled_body(box(-1)), G.shuffled_body(box(-2))
+        vs1 = [pt(c, u, v) for c in (-1, 1) for u, v in sq]
+        vs2 = [pt(c, u, v) for c in (-2, 1) for u, v in sq]
+        return G.shuffled_body(E.hull_faces(vs1)), G.shuffled_body(E.hull_faces(vs2))
+    return None
+
+
 def same_set(A, B):
     if A[0] in 'GB':
         return set(E.vertices_of(A)) == set(E.vertices_of(B))
@@ -141,7 +180,10 @@ def work(args):
             X = G.shuffled_body(G.body()[0])
         same = (i % 2 == 0)
         Y = alt_rep(G, X) if same else near_miss(G, X)
-        rec = dict(X=X, Y=Y, same=same)
+        tw = collision_twin(G, k) if (not same and k in ('P', 'V', 'S', 'G', 'B') and R.random() < 0.12) else None
+        if tw is not None:
+            X, Y = tw
+        rec = dict(X=X, Y=Y, same=same, twin=tw is not None)
         try:
             num_a, num_b = R.choice(NUMS), R.choice(NUMS)
             a = build_num(impl, X, num_a)
@@ -176,7 +218,7 @@ def run(ctx, scale=1):
     ctx.extra['rule'] = ('eight kinds (7 geometry types + Vector) cycled; even cases: an alternative exact representation of the same set (other support point / direction or normal scaled by ±k / '
                          'swapped end points / rescaled half-line direction / shuffled vertices with repeats / shuffled faces), built with float, int or Fraction coordinates, 30% recomputed through '
                          'move-and-back; odd cases: a near-miss different set (a defining point displaced by >= 1/100, direction tilted, half-line reversed, one vertex pushed out, polygon lifted off '
-                         'its plane); observed: a==b, b==a, a!=b, hash equality, len({a,b}), a==a, == against foreign values; non-trivial = every case')
+                         'its plane; 12% of them: collision twins, coordinates differing only by -1 <-> -2, which CPython hashes alike); observed: a==b, b==a, a!=b, hash equality, len({a,b}), a==a, == against foreign values; non-trivial = every case')
     ctx.extra['unproved'] = ['polygon/polyhedron: the code compares rounded SUMS of point/face hashes; the model compares vertex sets and planes (proved ⇔ same point set); that the hash sums agree exactly when the sets do is decided per run']
     total = ctx.n(6000, 200000) * scale
     recs = []
@@ -208,6 +250,8 @@ def run(ctx, scale=1):
         ctx.dist['%s %s' % (X[0], 'same set' if t else 'different sets')] += 1
         if r.get('arrived_by_move'):
             ctx.dist['second operand arrived by a primed in-place move'] += 1
+        if r.get('twin'):
+            ctx.dist['different sets whose coordinates differ only by -1 <-> -2 (colliding CPython hashes)'] += 1
         problems = []
         o = r['obs']
         if o[0] != 'ok':
